@@ -559,6 +559,7 @@ def parseCOp (s : String) : Option Conc.COp :=
     let hi ← parseHi hi
     pure (.removeRange lo hi)
   | ["get", k] => (parseHex k).map .get
+  | ["reader", k] => (parseHex k).map .get      -- get_reader + read to the end: the same read path
   | ["grange", k, s, e] => do
     let k ← parseHex k
     let s ← s.toNat?
